@@ -438,6 +438,16 @@ def standard_prologue(chk, theorems, extra_targets=(), imports=()):
     if problems:
         chk.violation("proof audit of %s failed: %s" % (chk.pid, problems[:5]),
                       {"broken": "proof audit", "problems": problems}, no_failing_input=True, tag="audit")
+    if chk.tier == "thorough":
+        # independent re-check of the compiled theorem modules by Lean's stand-alone checker
+        t0 = time.time()
+        mods = ["Okane.Props.%s" % chk.pid] + list(imports)
+        rc, out = sh(["lake", "env", "leanchecker"] + mods, cwd=LEAN)
+        chk.log["leanchecker"] = "ok (%s)" % " ".join(mods) if rc == 0 else out[-500:]
+        chk.log["leanchecker_s"] = round(time.time() - t0, 2)
+        if rc != 0:
+            chk.violation("leanchecker rejects %s" % " ".join(mods), {"broken": "leanchecker", "log": out[-3000:]},
+                          no_failing_input=True, tag="audit")
     return True
 
 
